@@ -957,7 +957,12 @@ impl RedisClient for NetClient {
                             }
                             Ok(r)
                         }
-                        Err(()) => Err(io_err()),
+                        Err(()) => {
+                            if is_ctl {
+                                net.event(json!({"kind": "call", "idx": idx, "from": from, "to": target, "cmd": lossy(&cmd), "fault": "down", "reply": {"t": "lost"}}));
+                            }
+                            Err(io_err())
+                        }
                     }
                 }
             };
@@ -987,6 +992,10 @@ impl RedisClientFactory for NetClientFactory {
         Box::pin(async move {
             let known = net.is_redis(&address) || net.inner.proxies.lock().contains_key(&address);
             if !known || net.inner.down.lock().contains(&address) {
+                if from.starts_with("coord") {
+                    // a coordinator could not connect: whatever call its chain was about to make is lost
+                    net.event(json!({"kind": "connect_failed", "from": from, "to": address}));
+                }
                 return Err(RedisClientError::Io(std::io::Error::new(std::io::ErrorKind::ConnectionRefused, "refused")));
             }
             Ok(NetClient { net, from, target: address })
